@@ -2,7 +2,8 @@
    values. Statements only; each is closed by `exact` of a lemma proved against
    the Gallina regenerated from /repo (Gen/Mathutil.v, Gen/Fee.v, Gen/CoinHours.v). *)
 From Sky Require Import Base.Uint Model.ArithSpec Gen.Mathutil Gen.Fee Gen.CoinHours
-  Proofs.MathutilProofs Proofs.FeeProofs Proofs.CoinHoursProofs.
+  Gen.CoinLoops Gen.FeeTxn
+  Proofs.MathutilProofs Proofs.FeeProofs Proofs.CoinHoursProofs Proofs.CoinLoopsProofs.
 Open Scope Z_scope.
 
 (* checked helpers: an error exactly when the mathematical result does not fit *)
@@ -88,3 +89,64 @@ Example C31_example :
   UxOut_CoinHours 0 1000001 0 18446744073709551615 = Val (0, E_sum).
 Proof. split; vm_compute; reflexivity. Qed.
 Print Assumptions C31_example.
+
+(* ---- loops over slices of structs, regenerated from src/coin and src/util/fee
+   (Gen/CoinLoops.v, Gen/FeeTxn.v; translator/loops.go). A slice argument is the
+   list of the integer fields the function reads (named above each definition).
+   zsum = the sum over Z. Lists of ANY length. The hour checks
+   (UxArray.CoinHours, VerifyTransactionHoursSpending) are characterised in C03
+   through the refinement theorems C03_*_is_translated. *)
+
+(* txn.OutputHours(): the sum of the outputs' hours, an error exactly when it does not fit *)
+Theorem C31_OutputHours : forall hs, Forall (in_u 64) hs ->
+  Transaction_OutputHours hs = ret_or_err (zsum hs <? 2 ^ 64) (zsum hs) "Transaction output hours overflow".
+Proof. exact OutputHours_spec. Qed.
+Print Assumptions C31_OutputHours.
+
+Theorem C31_UxArray_Coins : forall cs, Forall (in_u 64) cs ->
+  UxArray_Coins cs = ret_or_err (zsum cs <? 2 ^ 64) (zsum cs) "UxArray.Coins addition overflow".
+Proof. exact UxArray_Coins_spec. Qed.
+Print Assumptions C31_UxArray_Coins.
+
+(* coin.VerifyTransactionCoinsSpending: the first failing rule in the order of
+   the code; it accepts exactly when neither sum overflows and they are equal *)
+Theorem C31_VerifyTransactionCoinsSpending : forall ins outs,
+  Forall (in_u 64) ins -> Forall (in_u 64) outs ->
+  VerifyTransactionCoinsSpending ins outs = Val (coins_spending_verdict ins outs).
+Proof. exact VerifyTransactionCoinsSpending_spec. Qed.
+Print Assumptions C31_VerifyTransactionCoinsSpending.
+
+Theorem C31_VerifyTransactionCoinsSpending_accepts_iff : forall ins outs,
+  Forall (in_u 64) ins -> Forall (in_u 64) outs ->
+  (VerifyTransactionCoinsSpending ins outs = Val None <->
+   zsum ins < 2 ^ 64 /\ zsum outs < 2 ^ 64 /\ zsum ins = zsum outs).
+Proof. exact VerifyTransactionCoinsSpending_accepts_iff. Qed.
+Print Assumptions C31_VerifyTransactionCoinsSpending_accepts_iff.
+
+(* fee.TransactionFee: input hours minus output hours, never below zero *)
+Theorem C31_TransactionFee : forall outs T ins ih oh,
+  UxArray_CoinHours ins T = Val (ih, None) -> Transaction_OutputHours outs = Val (oh, None) ->
+  in_u 64 ih -> in_u 64 oh ->
+  TransactionFee outs T ins =
+    if ih <? oh then Val (0, Some "ErrTxnInsufficientCoinHours"%string) else Val (ih - oh, None).
+Proof. exact TransactionFee_spec. Qed.
+Print Assumptions C31_TransactionFee.
+
+(* fee.VerifyTransactionFee: the fee rule on the true sum of the outputs' hours *)
+Theorem C31_VerifyTransactionFee : forall outs f b, Forall (in_u 64) outs ->
+  VerifyTransactionFee outs f b =
+    if zsum outs <? 2 ^ 64 then VerifyTransactionFeeForHours (zsum outs) f b
+    else Val (Some "Transaction output hours overflow"%string).
+Proof. exact VerifyTransactionFee_spec. Qed.
+Print Assumptions C31_VerifyTransactionFee.
+
+Example C31_loops_example :
+  Transaction_OutputHours [5; 7; 9] = Val (21, None) /\
+  Transaction_OutputHours [9223372036854775808; 9223372036854775808] = Val (0, Some "Transaction output hours overflow"%string) /\
+  VerifyTransactionCoinsSpending [3000000; 2000000] [5000000] = Val None /\
+  VerifyTransactionCoinsSpending [3000000; 2000000] [4999999] = Val (Some "Transactions may not destroy coins"%string) /\
+  VerifyTransactionHoursSpending 3600100 [(100, 2000000, 7)] [2007] = Val None /\
+  VerifyTransactionHoursSpending 3600100 [(100, 2000000, 7)] [2008] = Val (Some "Insufficient coin hours"%string) /\
+  TransactionFee [1806] 3600100 [(100, 2000000, 7)] = Val (201, None).
+Proof. repeat split; vm_compute; reflexivity. Qed.
+Print Assumptions C31_loops_example.
